@@ -34,6 +34,7 @@ def env(date):
     return PE.set_up_policy_environment(date)
 
 
+@functools.lru_cache(maxsize=1)
 def all_internal_functions():
     return load_internal_functions()
 
@@ -62,9 +63,60 @@ def suffix_group(name):
     return None
 
 
-def rule_args(f, P, tag=""):
+_WIDTH = {bool: 0, int: 1, float: 2}
+
+
+def column_type(name, depth=0):
+    """python type of the column that the loader produces / accepts under `name`, resolved from the code base
+    (not from the annotation of the consumer): documented input type, return annotation of the policy rule(s)
+    registered under that DAG name (widest over time), built-in aggregation specs (count -> int, any/all -> bool,
+    mean -> float, sum/max/min -> type of the source), time-unit siblings -> float.  None if unknown."""
+    import re
+    if depth > 6:
+        return None
+    if name in TYPES_INPUT_VARIABLES:
+        t = TYPES_INPUT_VARIABLES[name]
+        return t if t in _WIDTH else None
+    best = None
+    for fn, f in all_internal_functions().items():
+        info = getattr(f, "__info__", {}) or {}
+        if info.get("name_in_dag", fn) == name:
+            t = f.__annotations__.get("return")
+            if t in _WIDTH and (best is None or _WIDTH[t] > _WIDTH[best]):
+                best = t
+    if best is not None:
+        return best
+    from _gettsim.functions_loader import load_aggregation_dict
+    for typ in ("aggregate_by_group", "aggregate_by_p_id"):
+        spec = load_aggregation_dict(typ).get(name)
+        if spec:
+            aggr = spec["aggr"]
+            if aggr == "count":
+                return int
+            if aggr in ("any", "all"):
+                return bool
+            if aggr == "mean":
+                return float
+            src = column_type(spec["source_col"], depth + 1)
+            return int if (aggr == "sum" and src is bool) else src
+    m = re.fullmatch(r"(?P<base>.*_)(?P<u>[ymwd])(?P<agg>_(hh|wthh|fg|bg|eg|ehe|sn))?", name)
+    if m:
+        g = m.group("agg") or ""
+        for u in "ymwd":
+            sib = f"{m.group('base')}{u}{g}"
+            if u != m.group("u") and (sib in TYPES_INPUT_VARIABLES or any((getattr(f, "__info__", {}) or {}).get("name_in_dag", fn) == sib
+                                                                          for fn, f in all_internal_functions().items())):
+                return float
+        if g:   # automatic group sum of the individual-level column
+            src = column_type(name[: -len(g)], depth + 1)
+            return int if src is bool else src
+    return None
+
+
+def rule_args(f, P, tag="", widen=False):
     """symbolic arguments for rule f from its annotations; params from P.
-    returns (kwargs, {argname: Sym})"""
+    returns (kwargs, {argname: Sym}).  widen=True: an argument whose producing column is of a wider type than the
+    consumer's annotation says (int-annotated argument fed by a float column) gets the wider type."""
     kw, syms = {}, {}
     for a in inspect.signature(f).parameters:
         if a.endswith("_params"):
@@ -75,8 +127,17 @@ def rule_args(f, P, tag=""):
         ann = f.__annotations__.get(a)
         if ann not in (float, int, bool):
             raise R.Unsupported(f"argument {a} has non-scalar annotation {ann}")
+        if widen:
+            actual = _column_type_cached(a)
+            if actual in _WIDTH and _WIDTH[actual] > _WIDTH[ann]:
+                ann = actual
         kw[a] = syms[a] = R.sym_for(a + tag, ann)
     return kw, syms
+
+
+@functools.lru_cache(maxsize=None)
+def _column_type_cached(name):
+    return column_type(name)
 
 
 def concrete_value(m, s):
